@@ -656,10 +656,90 @@ class Check(PropertyCheck):
             loop.close()
         rep.cov["rebound_attribute_scenarios"] = 1
         self._argument_scenarios(rep)
+        self._name_scenarios(rep)
         if problems:
             rep.violation({"input": "use an attribute through the proxy, re-bind it on the wrapped object, use it again",
                            "observed": problems, "required": "calls run the wrapped object's method; non-callable attributes are refused"},
                           found_input=True, signature="proxy:rebound-attribute")
+
+    def _name_scenarios(self, rep):
+        """the proxy forwards whatever the wrapped object calls its methods: the names bellows itself sends through a proxy (the
+        callbacks of the UART gateway and of the EZSP layer) and other ordinary names, as plain and as coroutine methods"""
+        import bellows.thread as bt
+        NAMES = ["connection_made", "connection_lost", "data_received", "eof_received", "pause_writing", "resume_writing",
+                 "frame_received", "enter_failed_state", "error_received", "reset_received", "send_data", "reset", "close",
+                 "get", "items", "name", "loop", "wait", "result", "done", "cancel", "run", "start", "stop", "test"]
+        problems = []
+
+        async def _tid():
+            return threading.get_ident()
+
+        async def main():
+            elt = bt.EventLoopThread()
+            await elt.start()
+            try:
+                owner_tid = await elt.run_coroutine_threadsafe(_tid())
+                n = 0
+                for name in NAMES:
+                    for coro in (False, True):
+                        seen = []
+                        if coro:
+                            async def fn(self, tag, _seen=seen):
+                                _seen.append((tag, threading.get_ident()))
+                                return 4000 + tag
+                        else:
+                            def fn(self, tag, _seen=seen):
+                                _seen.append((tag, threading.get_ident()))
+                        tgt = type("Named", (), {name: fn})()
+                        proxy = bt.ThreadsafeProxy(tgt, elt.loop)
+                        n += 1
+                        try:
+                            r = getattr(proxy, name)(5)
+                            if coro:
+                                r = await asyncio.wait_for(r, 2)
+                        except BaseException as e:  # noqa
+                            problems.append(f"{'coroutine' if coro else 'plain'} method {name!r} called from another loop raised {e!r}")
+                            continue
+                        await elt.run_coroutine_threadsafe(asyncio.sleep(0.005))
+                        if seen != [(5, owner_tid)] or r != (4005 if coro else None):
+                            problems.append(f"{'coroutine' if coro else 'plain'} method {name!r} called from another loop: executed "
+                                            f"{[(t, 'owner' if i == owner_tid else 'caller') for t, i in seen]}, returned {r!r}; it "
+                                            f"runs once on the owner's loop{' and its result is relayed' if coro else ''}")
+                        # and from the owner's loop: executed directly
+                        seen2 = []
+
+                        async def on_owner(_name=name, _proxy=proxy, _seen=seen, _seen2=seen2):
+                            del _seen[:]
+                            r2 = getattr(_proxy, _name)(6)
+                            if asyncio.iscoroutine(r2) or asyncio.isfuture(r2):
+                                r2 = await r2
+                            _seen2.extend(_seen)
+                            return r2
+                        try:
+                            r2 = await elt.run_coroutine_threadsafe(on_owner())
+                        except BaseException as e:  # noqa
+                            problems.append(f"method {name!r} called from the owner's loop raised {e!r}")
+                            continue
+                        if [t for t, _ in seen2] != [6] or r2 != (4006 if coro else None):
+                            problems.append(f"{'coroutine' if coro else 'plain'} method {name!r} called from the owner's loop: executed "
+                                            f"{[t for t, _ in seen2]}, returned {r2!r}")
+                rep.cov["method_name_scenarios"] = n
+            finally:
+                elt.force_stop()
+                await asyncio.wait_for(elt.thread_complete, 5)
+
+        loop = asyncio.new_event_loop()
+        asyncio.set_event_loop(loop)
+        try:
+            loop.run_until_complete(asyncio.wait_for(main(), 40))
+        except BaseException as e:  # noqa
+            problems.append(f"the scenario crashed: {e!r}")
+        finally:
+            loop.close()
+        if problems:
+            rep.violation({"input": "methods of the wrapped object under the names bellows sends through a proxy, and other ordinary names",
+                           "observed": problems[:6], "required": "a call made through the proxy is executed on the owner's loop whatever the method is called"},
+                          found_input=True, signature="proxy:method-names")
 
     def _argument_scenarios(self, rep):
         """the call that is executed is the call that was made: positional arguments, keyword arguments (overriding a default,
@@ -668,7 +748,8 @@ class Check(PropertyCheck):
         import bellows.thread as bt
         problems = []
         SHAPES = [((), {}), ((1,), {}), ((1, 2, 3), {}), ((1,), {"b": 5}), ((), {"a": 4, "b": 5}), ((1, 2), {"k": 9}),
-                  ((1,), {"k": 9, "extra": "x", "more": None}), ((), {"k": 0}), (([1, 2],), {"b": (3,), "kw": {"d": 1}})]
+                  ((1,), {"k": 9, "extra": "x", "more": None}), ((), {"k": 0}), ((1,), {"name": "kitchen"}),
+                  ((), {"func": 3, "loop": 1, "args": (1,), "kwargs": {}, "obj": None, "attr": "x"}), (([1, 2],), {"b": (3,), "kw": {"d": 1}})]
 
         class ArgTarget:
             def __init__(self):
